@@ -12,6 +12,7 @@ import (
 	"bytes"
 	"fmt"
 	"go/ast"
+	"regexp"
 	"strings"
 )
 
@@ -55,16 +56,15 @@ var c20Expect = [][4]string{
 	{"File", "GetPictures", "CellNameToCoordinates", "pathDirect"},
 }
 
-// function, source pattern (whitespace-insensitive) the model / a finding relies on
+// function, source pattern (regular expression over the whitespace-squashed source; identifiers
+// of locals and parameters are wildcards so that a rename is not reported) behind the open findings
 var c20Patterns = [][3]string{
-	{"", "rangeRefToCoordinates", `strings.Split(strings.ReplaceAll(ref, "$", ""), ":")`},
-	{"", "rangeRefToCoordinates", `len(rng) < 2`},
-	{"File", "MergeCell", `rangeRefToCoordinates(topLeftCell + ":" + bottomRightCell)`},
-	{"File", "UnmergeCell", `rangeRefToCoordinates(topLeftCell + ":" + bottomRightCell)`},
-	{"File", "addComment", `Ref: opts.Comment.Cell`},
-	{"File", "DeleteComment", `cmt.Ref != cell`},
-	{"", "JoinCellName", `row < 1`},
-	{"", "JoinCellName", `len(col) == 0 || len(col) != len(normCol)`},
+	{"", "rangeRefToCoordinates", `strings\.ReplaceAll\(\w+, "\$", ""\)`},
+	{"", "rangeRefToCoordinates", `len\(\w+\) < 2`},
+	{"File", "MergeCell", `rangeRefToCoordinates\(\w+ \+ ":" \+ \w+\)`},
+	{"File", "UnmergeCell", `rangeRefToCoordinates\(\w+ \+ ":" \+ \w+\)`},
+	{"File", "addComment", `Ref: [\w.]+\.Cell\b`},
+	{"File", "DeleteComment", `\.Ref != \w+`},
 }
 
 func c20Skeleton(fd *ast.FuncDecl) string {
@@ -117,9 +117,9 @@ func init() {
 		w.WriteString("def sourcePatterns : List (String × String × Bool) := [\n")
 		for i, p := range c20Patterns {
 			fd := funcDecl(p[0], p[1])
-			present := fd != nil && strings.Contains(c20Squash(src(fd)), c20Squash(p[2]))
+			present := fd != nil && regexp.MustCompile(p[2]).MatchString(c20Squash(src(fd)))
 			if !present {
-				fail("%s.%s no longer contains `%s`", p[0], p[1], p[2])
+				fail("%s.%s no longer matches `%s`", p[0], p[1], p[2])
 			}
 			sep := ","
 			if i == len(c20Patterns)-1 {
